@@ -208,3 +208,17 @@ def denseInt (r : Rle Int) (isBool : Bool) : List Int :=
   if isBool then (toArrayBool (mapRle (· != 0) r)).map b2i else toArrayInt r
 
 end C09
+
+namespace C09
+open Base.Rle
+
+/-! ### boolean indexing `t[mask]` and canonical run-length form -/
+
+/-- `t[mask]` (npstructures `_getitem_bool`, specified at the dense level): the values at the `True` positions -/
+def selectMask {V : Type} (d : List V) (m : List Bool) : List V := ((d.zip m).filter (·.2)).map (·.1)
+
+/-- the run-length array with maximal runs of a dense array (what a binary ufunc / `join_runs` leaves behind) -/
+def canonRle {V : Type} [BEq V] (d : List V) : Rle V :=
+  ofPairs (joinPairs (d.zipIdx.map (fun x => (x.2 + 1, x.1))))
+
+end C09
